@@ -29,7 +29,7 @@ RULE = ("cases are (layout, 1-3 catalogue operations sharing that layout as oper
         "entry points; non-trivial = some operand has length > 0 or the case is a designated corner (zero-length, "
         "size-0/size-1 regular, n > size); distinct = distinct SHA-1 of the case descriptor")
 VARIANTS = {"quick": ["asan"], "thorough": ["asan", "plain"]}
-BUDGET = {"quick": dict(cases=12000, seconds=75), "thorough": dict(cases=500000, seconds=1500)}
+BUDGET = {"quick": dict(cases=30000, seconds=75), "thorough": dict(cases=500000, seconds=1500)}
 MIN_NONTRIVIAL = {"quick": 1500, "thorough": 30000}
 ASSUMPTIONS = [
     "AddressSanitizer limits: non-adjacent overflows that jump the 64-byte red zone, intra-object overflows and reads "
@@ -112,7 +112,12 @@ def run_case(ctx, case):
     for k in model.classes(d):
         ctx.cover("input_classes", k)
     if case["mode"] == "invalid":
-        h = b.build(d)
+        try:
+            h = b.build(d)
+        except AkError as e:
+            ctx.cover("invalid_entry", "constructor:raised")
+            ctx.nontrivial(True)
+            return
         for name in case["entries"]:
             res = _entry(b, h, name)
             ctx.cover("invalid_entry", "%s:%s" % (name, res.split(":")[0]))
